@@ -8,7 +8,8 @@ import (
 func zzC13Prelude() *Engine {
 	e := zzOpen()
 	rt.Assert(e.VCreate("i0", distance.Euclidean, 2, 4, distance.Float32, "", nil, nil, nil) == nil, "prelude: VCreate succeeds")
-	rt.Assert(e.VAdd("i0", "a", []float32{1}, map[string]any{"base": "x"}) == nil, "prelude: VAdd succeeds")
+	// the node already carries a counter and a key: a stale read-modify-write then visibly reverts them
+	rt.Assert(e.VAdd("i0", "a", []float32{1}, map[string]any{"base": "x", "_access_count": 5.0, "ka": "0", "kb": "0"}) == nil, "prelude: VAdd succeeds")
 	return e
 }
 
@@ -44,7 +45,7 @@ func ZZVerifC13ReadModifyWrite() {
 	if err != nil {
 		return
 	}
-	want := 0.0
+	want := 5.0
 	for _, k := range []int{k1, k2} {
 		switch k {
 		case 0:
@@ -55,10 +56,8 @@ func ZZVerifC13ReadModifyWrite() {
 			rt.Assert(d.Metadata["kb"] == "2", "concurrent metadata merges keep every key (kb)")
 		}
 	}
-	if want > 0 {
-		c, _ := d.Metadata["_access_count"].(float64)
-		rt.Assert(c == want, "concurrent reinforcements are all counted")
-	}
+	c, _ := d.Metadata["_access_count"].(float64)
+	rt.Assert(c == want, "concurrent reinforcements are all counted (and no concurrent merge reverts the counter)")
 	rt.Assert(d.Metadata["base"] == "x", "pre-existing metadata key survives concurrent updates")
 	rt.Reach("end")
 }
